@@ -935,6 +935,88 @@ _D17_LOOP = (
     "      if op.target:\n"
     "        block.connect_outgoing(first_op_to_block[op.target])\n")
 
+# -- R16.8 total traversal of the instruction stream ------------------------------
+
+_STREAM_PASSES = {
+    "pytype/pyc/opcodes.py": ["_make_opcodes", "_add_setup_except", "_make_opcode_list",
+                              "_add_jump_targets", "_add_async_for_jump_back_targets"],
+    "pytype/blocks/blocks.py": ["add_pop_block_targets", "_split_bytecode",
+                                "_remove_jmp_to_get_anext_and_merge",
+                                "_remove_jump_back_block", "compute_order"],
+}
+
+
+def _stream_names(fn):
+  """Names that denote the whole instruction stream / exception table / block
+  list inside fn: its parameters and locals derived from them by list(),
+  sorted(), enumerate(), .items(), .entries."""
+  names = {a.arg for a in fn.args.args + fn.args.kwonlyargs}
+  changed = True
+  while changed:
+    changed = False
+    for n in ast.walk(fn):
+      if isinstance(n, ast.Assign) and len(n.targets) == 1 and isinstance(n.targets[0], ast.Name):
+        if _is_stream(n.value, names) and n.targets[0].id not in names:
+          names.add(n.targets[0].id)
+          changed = True
+  return names
+
+
+def _is_stream(e, names):
+  if isinstance(e, ast.Name):
+    return e.id in names
+  if isinstance(e, ast.Attribute) and e.attr in ("entries", "opcodes", "code", "order"):
+    return _is_stream(e.value, names)
+  if isinstance(e, ast.Call):
+    d = dotted(e.func) or ""
+    if d in ("list", "sorted", "enumerate", "reversed", "tuple") and e.args:
+      return _is_stream(e.args[0], names)
+    if isinstance(e.func, ast.Attribute) and e.func.attr in ("items", "values", "keys") and not e.args:
+      return _is_stream(e.func.value, names)
+  return False
+
+
+def _early_exits(loop):
+  out = []
+  todo = list(loop.body)
+  while todo:
+    n = todo.pop()
+    if isinstance(n, (ast.Break, ast.Return)):
+      out.append(n)
+    if isinstance(n, (ast.FunctionDef, ast.AsyncFunctionDef, ast.Lambda, ast.ClassDef)):
+      continue
+    if isinstance(n, (ast.For, ast.While)):
+      out.extend(m for m in ast.walk(n) if isinstance(m, ast.Return))
+      continue
+    todo.extend(ast.iter_child_nodes(n))
+  return out
+
+
+@rule("R16.8", "C16", floor=12)
+def r16_8(ctx):
+  """Passes over the instruction stream visit every element.
+
+  The property quantifies over every instruction, jump and exception-table
+  entry of a code object; each construction pass (opcode list, jump targets,
+  exception ranges, async-for links, block splitting, edges) must therefore
+  process its whole input: a for-loop over the stream / table / block list
+  may `continue` but must not `break` or `return` out of it.
+  """
+  for rel, fns in _STREAM_PASSES.items():
+    mod = get_module(ctx, rel)
+    for name in fns:
+      fn = mod.func(name)
+      names = _stream_names(fn)
+      for lp in ast.walk(fn):
+        if isinstance(lp, ast.For) and _is_stream(lp.iter, names):
+          ex = _early_exits(lp)
+          ctx.check(not ex, f"{name}:for {src(lp.iter)}", rel, lp.lineno,
+                    f"the loop over `{src(lp.iter)}` in {name} can stop early "
+                    f"({', '.join(type(x).__name__.lower() + '@' + str(x.lineno) for x in ex)}): "
+                    "later instructions / table entries are never processed",
+                    {"iter": src(lp.iter), "early_exits": len(ex)})
+
+
 VARIANTS = [
     # -- R16.1
     {"name": "flag-value-aliases-another", "rule": "R16.1", "file": OPC, "expect": "fire",
@@ -1081,4 +1163,10 @@ VARIANTS = [
     {"name": "twin-jump-flag-order", "rule": "R16.7", "file": OPC, "expect": "silent",
      "old": "class SEND(OpcodeWithArg):\n  _FLAGS = HAS_ARGUMENT | HAS_JREL",
      "new": "class SEND(OpcodeWithArg):\n  _FLAGS = HAS_JREL | HAS_ARGUMENT"},
+    {"name": "seeded-C16-m1", "rule": "R16.8", "patch": "seeded/C16-m1/patch.diff", "expect": "fire"},
+    {"name": "jump-targets-stop-at-first-unknown", "rule": "R16.8", "file": "pytype/pyc/opcodes.py", "expect": "fire",
+     "old": "      op.target = ops[op.arg]\n", "new": "      op.target = ops[op.arg]\n    elif op.has_jump():\n      break\n"},
+    {"name": "twin-async-for-continue", "rule": "R16.8", "file": "pytype/pyc/opcodes.py", "expect": "silent",
+     "old": "      for jump_backward in get_anext_incoming[get_anext]:\n        jump_backward.end_async_for_target = offset_to_op[e.target]\n",
+     "new": "      for jump_backward in get_anext_incoming[get_anext]:\n        jump_backward.end_async_for_target = offset_to_op[e.target]\n      continue\n"},
 ]
